@@ -19,20 +19,22 @@ theorem C17_mro_solver : mro .Solver =
      SimplifySkipperMixin, SatCacheMixin, ModelCacheMixin, ConstraintExpansionMixin, SimplifyHelperMixin,
      FullFrontend, ConstrainedFrontend, Frontend] := by decide
 
-/-- whatever a call does — answer, raise unsat, give up — the invariant all later answers rest on holds afterwards -/
+/-- whatever a call does — answer, raise unsat, give up — the invariant all later answers (of every solver of the tree)
+rest on holds afterwards -/
 theorem C17_giveup_keeps_invariant {E : Env} {R : Con → Prop} (hR : Reg R E) (hE : OracleExact E) (hS : SimpOn R E)
-    (hT : CheapSound E) (w : World) (U : List Con) (hw : WInv R U w) (op : Op) (hop : InScope R op) :
-    WInv R (usersAfter U op) (step E .SolverCacheless w 0 op).2 :=
-  (cl_step hR hE hS hT w U hw op hop).2
+    (hT : CheapSound E) (w : World) (Us : List (List Con)) (hw : TInv R Us w) (i : Nat) (hi : i < w.fes.length)
+    (op : Op) (hop : InScope R op) :
+    TInv R (usersAll Us i op) (step E .SolverCacheless w i op).2 :=
+  (cl_step hR hE hS hT w Us hw i hi op hop).2
 
-/-- no hypothesis that the backend answers: every outcome of every history is allowed, or is the give-up error with
-the oracle having answered `unknown` -/
+/-- no hypothesis that the backend answers: every outcome of every history on a tree of branched solvers is allowed, or is
+the give-up error with the oracle having answered `unknown` -/
 theorem C17_cacheless_after_giveup {E : Env} {R : Con → Prop} (hR : Reg R E) (hE : OracleExact E) (hS : SimpOn R E)
-    (hT : CheapSound E) (hist : List Op) (hops : ∀ op ∈ hist, InScope R op) :
-    ∀ x ∈ runHist E .SolverCacheless (World.init false false) [[]] (hist.map fun op => (0, op)),
+    (hT : CheapSound E) (hist : List (Nat × Op)) (hok : HistOk R 1 hist) :
+    ∀ x ∈ runHist E .SolverCacheless (World.init false false) [[]] hist,
       Judge x.1 x.2.1 x.2.2 ∨ (x.2.2 = .err .giveUp ∧ GaveUp E) := by
   intro x hx
-  rcases cl_hist_giveup hR hE hS hT hist _ _ (winv_init R) hops x hx with h | ⟨e, he, hg⟩
+  rcases cl_hist_giveup hR hE hS hT hist _ _ (tinv_init R) hok x hx with h | ⟨e, he, hg⟩
   · exact Or.inl h
   · exact Or.inr ⟨by rw [he, hg.1], hg.2⟩
 
